@@ -22,7 +22,7 @@
 (* cogent3 returns None / {} when no column / no sequence is left).           *)
 EXTENDS Integers, Sequences, FiniteSets, TLC, Emit
 
-CONSTANTS ShapeIds,   \* subset of DOMAIN ShapeTab: ALL class layouts of these shapes are initial alignments
+CONSTANTS ShapeIds,   \* subset of DOMAIN ShapeTab \cup DOMAIN MissingTab: ALL class layouts of these shapes are initial alignments
           PickedIds,  \* subset of DOMAIN Picked: hand-picked larger layouts
           Mols,       \* molecular types of the initial alignment: subset of {"dna","rna","protein"}
           MaxDepth,   \* histories of at most this many operations
@@ -35,6 +35,12 @@ vars == <<kind, mol, rows, base, depth>>
 -----------------------------------------------------------------------------
 (* Symbols                                                                    *)
 Gap == "-"
+(* the missing-data symbol: a member of moltype.gaps (with "-") and an ambiguity code, but *)
+(* NOT the gap character.  Following the docstrings (and both classes on the unchanged    *)
+(* tree): omit_gap_pos counts it as a gap, degap removes it, no_degenerates always drops  *)
+(* it (allow_gap admits "-" only), get_degapped_relative_to keeps it, rc leaves it alone. *)
+Missing == "?"
+GapLike(ch) == ch \in {Gap, Missing}
 (* (false alarm corrected during the build: a first version listed only 10 of *)
 (*  the 20 amino acids as canonical, so no_degenerates on random protein rows  *)
 (*  was wrongly predicted to drop columns)                                     *)
@@ -62,6 +68,7 @@ ToMol(m, ch) == IF m = "rna" /\ ch = "T" THEN "U"
 (* the concrete symbol that instantiates class cls at matrix position (r,c) *)
 Sym(m, cls, r, c) ==
     CASE cls = "g" -> Gap
+      [] cls = "m" -> Missing
       [] cls = "c" -> CanonSeq(m)[((r + c) % Len(CanonSeq(m))) + 1]
       [] cls = "d" -> DegenSeq(m)[((3 * r + c) % Len(DegenSeq(m))) + 1]
 
@@ -71,18 +78,22 @@ Names == <<"nb", "na", "nc">>      \* deliberately not in sorted order
 (* Initial layouts (matrices over the classes canonical / degenerate / gap)   *)
 Classes == {"c", "d", "g"}
 AllLayouts(nr, nc) == [1..nr -> [1..nc -> Classes]]
+(* layouts over canonical / gap / missing with at least one missing cell *)
+MissingLayouts(nr, nc) == {L \in [1..nr -> [1..nc -> {"c", "g", "m"}]] : \E r \in 1..nr, c \in 1..nc : L[r][c] = "m"}
 Picked ==
-  [ p1 |-> << <<"c","g","g","c">>, <<"g","d","c","g">>, <<"c","c","g","d">> >>,   \* internal run; leading+trailing; gap column pair
-    p2 |-> << <<"g","g","c","d">>, <<"c","g","g","g">>, <<"d","g","c","c">> >>,   \* leading run; trailing run; all-gap column
+  [ p1 |-> << <<"c","g","g","c">>, <<"g","d","m","g">>, <<"m","c","g","d">> >>,   \* internal run; leading+trailing; gap column pair; '?' next to gaps
+    p2 |-> << <<"g","g","c","d">>, <<"c","g","g","g">>, <<"d","g","m","c">> >>,   \* leading run; trailing run; all-gap column
     p3 |-> << <<"g","g","g","g">>, <<"c","d","c","c">>, <<"c","c","g","c">> >>,   \* all-gap row
-    p4 |-> << <<"c","g","c","g","c">>, <<"g","c","d","c","g">> >>,                \* alternating gaps, 2 x 5
+    p4 |-> << <<"c","g","m","g","c">>, <<"g","c","d","m","g">> >>,                \* alternating gaps, 2 x 5
     p5 |-> << <<"c","d","c">>, <<"c","c","c">>, <<"d","c","c">> >>,               \* no gap at all
     p6 |-> << <<"d","g","g","c","c">> >>,                                          \* single row
-    p7 |-> << <<"c","c","g","g","c","c">>, <<"g","c","c","d","g","g">> >>         \* 2 x 6, runs of two
+    p7 |-> << <<"c","m","g","g","c","c">>, <<"g","c","c","d","g","g">> >>         \* 2 x 6, runs of two
   ]
 ShapeTab == [s1x2 |-> <<1, 2>>, s1x3 |-> <<1, 3>>, s1x4 |-> <<1, 4>>, s2x1 |-> <<2, 1>>, s2x2 |-> <<2, 2>>, s2x3 |-> <<2, 3>>,
              s3x1 |-> <<3, 1>>, s3x2 |-> <<3, 2>>, s2x4 |-> <<2, 4>>, s3x3 |-> <<3, 3>>]
-Layouts == UNION {AllLayouts(ShapeTab[sh][1], ShapeTab[sh][2]) : sh \in ShapeIds} \cup {Picked[p] : p \in PickedIds}
+MissingTab == [q1x2 |-> <<1, 2>>, q1x3 |-> <<1, 3>>, q2x2 |-> <<2, 2>>, q2x3 |-> <<2, 3>>]
+Layouts == UNION {AllLayouts(ShapeTab[sh][1], ShapeTab[sh][2]) : sh \in ShapeIds \cap DOMAIN ShapeTab}
+           \cup UNION {MissingLayouts(MissingTab[sh][1], MissingTab[sh][2]) : sh \in ShapeIds \cap DOMAIN MissingTab} \cup {Picked[p] : p \in PickedIds}
 
 MakeRows(L, m) ==
     [r \in 1..Len(L) |->
@@ -109,7 +120,7 @@ StrideIdx(a, b, k) == [j \in 1..(IF b > a THEN (b - a + k - 1) \div k ELSE 0) |-
 RcRows(rs, m) == MapCells(rs, LAMBDA cs : [k \in 1..Len(cs) |->
                      [s |-> cs[Len(cs) + 1 - k].s, ch |-> Compl(m, cs[Len(cs) + 1 - k].ch)]])
 ToMolRows(rs, m) == MapCells(rs, LAMBDA cs : [k \in 1..Len(cs) |-> [s |-> cs[k].s, ch |-> ToMol(m, cs[k].ch)]])
-DegapRows(rs) == MapCells(rs, LAMBDA cs : SelectSeq(cs, LAMBDA x : x.ch # Gap))
+DegapRows(rs) == MapCells(rs, LAMBDA cs : SelectSeq(cs, LAMBDA x : ~GapLike(x.ch)))
 
 (* rows named by the index list ix (1-based positions in rs), in that order *)
 TakeRows(rs, ix) == [k \in 1..Len(ix) |-> rs[ix[k]]]
@@ -127,13 +138,14 @@ BlockCells(blk) == {<<r, k>> : r \in DOMAIN blk, k \in DOMAIN blk[1]}
 KeepMotifs(rs, ml, P(_)) ==
     TakeCols(rs, MotifCols(SelectSeq(Range0(0, NMotifs(rs, ml)), LAMBDA i : P(Block(rs, i, ml))), ml))
 
-GapCount(blk) == Cardinality({x \in BlockCells(blk) : blk[x[1]][x[2]] = Gap})
+GapCount(blk) == Cardinality({x \in BlockCells(blk) : GapLike(blk[x[1]][x[2]])})     \* moltype.gaps
+DashCount(blk) == Cardinality({x \in BlockCells(blk) : blk[x[1]][x[2]] = Gap})
 (* fraction of gap characters in the block <= num/den, exactly *)
 GapsOk(blk, num, den) == GapCount(blk) * den <= num * Cardinality(BlockCells(blk))
 NoDegen(blk, m, allowgap) ==
     \A x \in BlockCells(blk) : blk[x[1]][x[2]] \in Canon(m) \/ (allowgap /\ blk[x[1]][x[2]] = Gap)
 Pred(name, blk) ==
-    CASE name = "nogap"     -> GapCount(blk) = 0
+    CASE name = "nogap"     -> DashCount(blk) = 0          \* the harness predicates look for "-" only
       [] name = "row1nogap" -> \A k \in DOMAIN blk[1] : blk[1][k] # Gap
       [] name = "true"      -> TRUE
 
@@ -320,6 +332,7 @@ NoCellInvented ==
         /\ base[x.s[1]].name = rows[i].name
         /\ x.ch \in Variants(base[x.s[1]].cells[x.s[2]].ch)
         /\ (x.ch = Gap) = (base[x.s[1]].cells[x.s[2]].ch = Gap)
+        /\ (x.ch = Missing) = (base[x.s[1]].cells[x.s[2]].ch = Missing)
 
 (* algebra of the operations, as sanity of the definitions *)
 RcInvolution == (kind \in {"aln", "coll"} /\ Nucleic) => RcRows(RcRows(rows, mol), mol) = rows
